@@ -46,7 +46,7 @@ pub fn jobs(tier: Tier, seed: u64) -> Vec<Job> {
     let mut pairs = vec![];
     for f in &bx {
         for g in &bx {
-            if f.b == g.a && f.w + g.w <= nodes_max && f.w + g.w >= 2 && f.b >= 1 {
+            if f.b == g.a && f.w + g.w <= nodes_max && f.w + g.w >= 2 {
                 pairs.push((*f, *g));
             }
         }
